@@ -236,6 +236,32 @@ def run_tensorargs(item):
                     break
             else:
                 res["outcomes"].append(st)
+    # ONE dependent product object asked for its (estimated) volume at different external parameter values, in turn:
+    # every answer belongs to the row it was asked for (nothing learned for one row may be kept for another)
+    steep = L.X(L.I_STEEP, L.I(0, L.aff(0.5, s=0.5), var="t"))          # volume 0.325 at s=0, 1.10 at s=1
+    moving = L.X(L.C([L.aff(0, t=1), 0], L.aff(0.3, k=0.4)), L.IT)       # volume pi*(0.3+0.4k)^2: 0.283 at k=0, 1.54 at k=1
+    for nm, ast, var, lo_true, hi_true in (("I_x(t) * I_t(s)", steep, "s", 0.325, 1.10), ("C(t; k) * I_t", moving, "k", math.pi * 0.09, math.pi * 0.49)):
+        st = "stateful-volume|%s" % nm
+        res["states"].append(st)
+        try:
+            D = Bd.build_tp(ast)
+            seq = []
+            with Seam():
+                for val in (0.0, 1.0, 0.0, 1.0):
+                    seq.append(float(torch.as_tensor(D.volume(Bd.params_points({var: [val]}))).reshape(-1)[0]))
+                    res["transitions"] += 1
+        except Exception as e:
+            if not is_deliberate(e):
+                viol("C10|error|%s|stateful-volume" % type(e).__name__, "%s raised %s: %s" % (st, exc_sig(e), str(e)[:120]))
+            continue
+        res["evals"] += 1
+        # estimates from 10 sampled points: generous bands around the true values, far apart from each other
+        okk = all(0.5 * lo_true <= seq[i] <= 1.6 * lo_true for i in (0, 2)) and all(0.6 * hi_true <= seq[i] <= 1.5 * hi_true for i in (1, 3))
+        if not okk:
+            viol("C10|volume-depends-on-history", "%s: ONE domain object asked at %s = 0, 1, 0, 1 answers %s; the true volumes are %.3g and %.3g" % (
+                nm, var, [round(v, 4) for v in seq], lo_true, hi_true))
+        else:
+            res["outcomes"].append(st)
     res["samples"] = [{"aspect": "tensor-arguments", "cases": [c[0] for c in cases]}]
     return res
 
